@@ -17,7 +17,7 @@ from .run import CGoal, ConcRun, F64Run, Goal, OutOfDomain, SymRun
 
 
 class Family:
-    def __init__(self, key, fn, defd=True, tier="quick", functions=(), note="", timeout_ms=None, hard_s=None):
+    def __init__(self, key, fn, defd=True, tier="quick", functions=(), note="", timeout_ms=None, hard_s=None, structural=False, frame=True):
         self.key = key
         self.fn = fn
         self.defd = defd
@@ -26,6 +26,8 @@ class Family:
         self.note = note
         self.timeout_ms = timeout_ms
         self.hard_s = hard_s
+        self.structural = structural  # only structural goals: no solver-pruned case splits during execution
+        self.frame = frame
 
 
 class FamilyTimeout(BaseException):
@@ -166,6 +168,8 @@ def concrete_eval(fn, assignment, mode="mp"):
             out[label] = (g.ok, g.detail)
         else:
             out[label] = (bool(g), "")
+    fv = R.frame_violations()
+    out["frame:operands-unmodified"] = (not fv, "; ".join(fv)[:300])
     return out, R
 
 
@@ -238,6 +242,7 @@ def run_family(family, opts):
     }
     ctx = core.new_ctx(timeout_ms=timeout_ms, small_ms=opts.get("small_ms", 1500))
     ctx.stats = core.GLOBAL_STATS
+    ctx.no_solver_in_execution = bool(getattr(family, "structural", False))
     old = signal.signal(signal.SIGALRM, _alarm)
     signal.alarm(int(hard_s))
     failing = {}
@@ -267,7 +272,10 @@ def run_family(family, opts):
         if goals is not None:
             res["inputs"] = {n: k for n, (_, k) in ctx.inputs.items()}
             # vacuity twin: the false goal must be refutable (domain and facts are satisfiable)
-            if any(ctx.shadow_ok(k) for k in range(len(ctx.shadows))):
+            if getattr(family, "structural", False):
+                v = "sat"  # structural obligations (object identity) do not depend on the domain
+                res["vacuity_witness"] = "not-applicable(structural)"
+            elif any(ctx.shadow_ok(k) for k in range(len(ctx.shadows))):
                 v = "sat"  # a concrete point of the domain at which every definedness condition holds
                 res["vacuity_witness"] = "shadow-point"
             else:
@@ -294,6 +302,9 @@ def run_family(family, opts):
                     allgoals.append((f"defined#{k}:{f.label}", Goal(f.f, kind="defd"), f.stamp))
             for label, g in goals:
                 allgoals.append((label, g, None))
+            if getattr(family, "frame", True):
+                fv = R.frame_violations()
+                allgoals.append(("frame:operands-unmodified", CGoal(not fv, "; ".join(fv)[:300]), None))
             n_sym = 0
             for label, g, upto in allgoals:
                 tg = time.time()
